@@ -18,6 +18,7 @@ import (
 	"sort"
 	"strings"
 	realsync "sync"
+	realatomic "sync/atomic"
 
 	"github.com/EdgeCast/vflow/ipfix"
 	netflow5 "github.com/EdgeCast/vflow/netflow/v5"
@@ -134,6 +135,21 @@ func pipeMQ(p int) chan []byte {
 		return netflowV5MQCh
 	}
 	return sFlowMQCh
+}
+
+// pipeStatsQuiet reads the counters without scheduling points (for conditions evaluated by the scheduler)
+func pipeStatsQuiet(pr proto) (udp, decoded uint64) {
+	switch x := pr.(type) {
+	case *IPFIX:
+		return realatomic.LoadUint64(&x.stats.UDPCount), realatomic.LoadUint64(&x.stats.DecodedCount)
+	case *NetflowV9:
+		return realatomic.LoadUint64(&x.stats.UDPCount), realatomic.LoadUint64(&x.stats.DecodedCount)
+	case *NetflowV5:
+		return realatomic.LoadUint64(&x.stats.UDPCount), realatomic.LoadUint64(&x.stats.DecodedCount)
+	case *SFlow:
+		return realatomic.LoadUint64(&x.stats.UDPCount), realatomic.LoadUint64(&x.stats.DecodedCount)
+	}
+	return 0, 0
 }
 
 func pipeStats(pr proto) (udp, decoded uint64) {
@@ -342,6 +358,11 @@ func sflowAlphabet() map[string]pdgram {
 		"all-filtered":  {"all-filtered", expB, enc(sfh.Agent4, sfh.CounterSample(0, sfh.Rec("eth", 0)))},
 		"wrong-version": {"wrong-version", expA, bad},
 		"truncated":     {"truncated", expA, good[:len(good)-5]},
+		// cut in the middle of the sampled header octets of a raw packet header record
+		"truncated-in-header": {"truncated-in-header", expB, func() []byte {
+			b := enc(sfh.Agent4, sfh.FlowSample(0, sfh.Rec("raw", 0))) // same frame shape as dataA-long: a stale tail would complete it
+			return b[:len(b)-30]
+		}()},
 	}
 }
 
@@ -368,6 +389,7 @@ type pipeRun struct {
 	inband  bool // expectation depends on the order in which template and data are processed
 	mirror  bool
 	paced   bool // deliver one datagram at a time, waiting for quiescence in between
+	udpCap  int  // capacity of the receive queue (0 = 1000 as in production)
 }
 
 type pipeObs struct {
@@ -408,6 +430,9 @@ func drainMirror() []string {
 // runPipe is the body of thread 0: start the real run(), deliver, wait for quiescence, observe.
 func runPipe(r *pipeRun, out *pipeObs, mu *realsync.Mutex) {
 	cfg := pipeCfg{proto: r.proto, workers: r.workers, udpCap: 1000, mqCap: 1000, cache: r.cache, filter: r.filter}
+	if r.udpCap > 0 {
+		cfg.udpCap = r.udpCap
+	}
 	if r.mirror {
 		cfg.mirror = mirrorListener()
 		drainMirror()
@@ -548,6 +573,7 @@ func explorePipe(c *mck.Ctx, it pipeItem, body func(out *pipeObs, mu *realsync.M
 	outcomes := map[string]int{}
 	reported := map[string]bool{}
 	n := 0
+	_ = reported
 	devHist := map[int]int{}
 	onExec := func(r *sched.Result) {
 		n++
@@ -588,15 +614,24 @@ func explorePipe(c *mck.Ctx, it pipeItem, body func(out *pipeObs, mu *realsync.M
 		outcomes[fmt.Sprintf("udp=%d dec=%d pub=%d mirrored=%d %s", o.udp, o.decoded, len(o.published), len(o.mirrored), sig)]++
 	}
 	bodyFn := func() { body(&obs, &mu) }
-	// determinism gate
+	// determinism gate. The race detector reports a racing pair of stacks once per process, so what it
+	// says during the gate is kept and reported with the schedule that raised it.
 	var first [][]int
 	var firstObs []string
+	type gateRace struct {
+		rep      string
+		schedule []int
+	}
+	var gateRaces []gateRace
 	sched.Explore(sched.Config{Bound: it.bound, MaxExec: 8, TimerJumps: timerJumps, OnExec: func(r *sched.Result) {
 		mu.Lock()
 		o := obs
 		mu.Unlock()
 		first = append(first, r.Choices)
 		firstObs = append(firstObs, fmt.Sprint(o, r.FailSig, r.Steps))
+		if rep := newRaceReport(); rep != "" {
+			gateRaces = append(gateRaces, gateRace{rep, r.Choices})
+		}
 	}}, bodyFn)
 	for i, ch := range first {
 		sched.Explore(sched.Config{Bound: 0, Prefix: ch, MaxExec: 1, TimerJumps: timerJumps, OnExec: func(r *sched.Result) {
@@ -609,7 +644,27 @@ func explorePipe(c *mck.Ctx, it pipeItem, body func(out *pipeObs, mu *realsync.M
 			}
 		}}, bodyFn)
 	}
-	newRaceReport()
+	if rep := newRaceReport(); rep != "" {
+		gateRaces = append(gateRaces, gateRace{rep, nil})
+	}
+	for _, g := range gateRaces {
+		for _, one := range strings.Split(g.rep, "==================\nWARNING: DATA RACE") {
+			if !strings.Contains(one, "by goroutine") {
+				continue
+			}
+			rs := raceSig("WARNING: DATA RACE" + one)
+			if !reported[rs] {
+				reported[rs] = true
+				d := desc().(map[string]interface{})
+				d["schedule"] = fmt.Sprint(g.schedule)
+				if len(one) > 3500 {
+					one = one[:3500]
+				}
+				d["race_report"] = "WARNING: DATA RACE" + one
+				c.Violation(ppNames[it.run.proto]+":"+rs, "data race reported in an explored schedule", d)
+			}
+		}
+	}
 	if os.Getenv("VERIF_TRACE") != "" {
 		sched.Explore(sched.Config{Bound: 0, MaxExec: 1, KeepTrace: true, TimerJumps: timerJumps, OnExec: func(r *sched.Result) {
 			for _, l := range r.Trace {
@@ -720,9 +775,12 @@ func c12Items(tier string) []pipeItem {
 		}
 		orders := [][]string{{"dataA-long", "dataB-short", "dataA-mid"}, {"dataB-short", "dataA-long", "dataA-mid"}, {"dataA-mid", "dataA-long", "dataB-short"},
 			{"wrong-version", "dataA-long", "dataB-short"}, {"dataA-mid", "truncated", "dataA-long", "dataB-short"}}
+		if p == ppSFlow {
+			orders = append(orders, []string{"dataA-long", "truncated-in-header", "dataA-mid"})
+		}
 		for wi, w := range []int{1, 2} {
 			for oi, o := range orders {
-				if tier != "thorough" && wi == 1 && oi > 0 && oi != 3 {
+				if tier != "thorough" && wi == 1 && oi > 0 && oi != 3 && oi != 5 {
 					continue
 				}
 				out = append(out, pipeItem{fmt.Sprintf("mixed-sizes order%d", oi), pipeRun{proto: p, workers: w, seq: seqOf(al, o...), cache: cache}, b})
@@ -732,6 +790,21 @@ func c12Items(tier string) []pipeItem {
 		if p == ppIPFIX || p == ppV9 {
 			out = append(out, pipeItem{"in-band template", pipeRun{proto: p, workers: 2, seq: seqOf(al, "inband-tpl", "inband-data", "dataA-mid"), cache: cache, inband: true}, b})
 		}
+	}
+	return out
+}
+
+// C08 (concurrent part): the v5 decode + JSON rendering run by two workers on datagrams with different
+// addresses - every document published must still be the one of its own datagram.
+func c08Items(tier string) []pipeItem {
+	b := 1
+	if tier == "thorough" {
+		b = 3
+	}
+	al := alphabet(ppV5)
+	var out []pipeItem
+	for _, o := range [][]string{{"dataA-long", "dataB-short", "dataA-mid"}, {"dataB-short", "dataA-mid", "dataA-long"}} {
+		out = append(out, pipeItem{"v5 two workers " + strings.Join(o, ","), pipeRun{proto: ppV5, workers: 2, seq: seqOf(al, o...)}, b})
 	}
 	return out
 }
@@ -778,6 +851,8 @@ func c13Items(tier string) []pipeItem {
 				out = append(out, pipeItem{strings.Join(s, ","), pipeRun{proto: p, workers: w, seq: seqOf(al, s...), cache: cache, filter: filter}, b})
 			}
 		}
+		// the receive queue holds one datagram: the receive loop has to wait for the workers
+		out = append(out, pipeItem{"receive queue of 1: dataB-short,dataA-mid,dataB-short", pipeRun{proto: p, workers: 1, seq: seqOf(al, "dataB-short", "dataA-mid", "dataB-short"), cache: cache, filter: filter, udpCap: 1}, 2})
 		if p == ppSFlow { // the type filter configured: a datagram whose samples are all filtered
 			out = append(out, pipeItem{"filter[2]: all-filtered,dataB-short", pipeRun{proto: p, workers: 2, seq: seqOf(al, "all-filtered", "dataB-short"), filter: []uint32{2}}, 2})
 		}
@@ -796,6 +871,8 @@ type shutItem struct {
 	after    int      // how many of them are delivered AFTER the signal
 	bound    int
 	shrink   bool // second cycle: the acknowledged template is re-announced with fewer fields (the dump shrinks)
+	waitRead bool // send the signal only once the receive loop has read (counted) the datagrams delivered before it
+	once     bool // one start-stop cycle instead of two
 }
 
 // mainReplica is main()'s orchestration (vflow.go: start every protocol, wait for the signal,
@@ -828,12 +905,16 @@ func mainReplica(protos []proto) {
 }
 
 type shutObs struct {
+	lostEarly  string // a template received before the signal that the cache file lacks (threads held up < 1 s in total)
 	phase      string
 	exitNs     int64
 	fileErr    string
 	hasT1      bool
 	restartPub []string
 }
+
+// template ids announced by the datagrams of the alphabet
+var tplOf = map[string]uint16{"template": 300, "inband-tpl": 400, "template-short": 300}
 
 func sendSignal() {
 	sched.Point("signal")
@@ -844,7 +925,7 @@ func runShutdown(it shutItem, al map[string]pdgram, cacheFile string, out *shutO
 	os.Remove(cacheFile)
 	var o shutObs
 	set := func() { mu.Lock(); *out = o; mu.Unlock() }
-	for cycle := 0; cycle < 2; cycle++ {
+	for cycle := 0; cycle < 2 && !(it.once && cycle == 1); cycle++ {
 		o.phase = fmt.Sprintf("cycle %d: start", cycle)
 		set()
 		pr := resetPipe(pipeCfg{proto: it.proto, workers: it.workers, udpCap: it.udpCap, mqCap: 1000, cache: cacheFile})
@@ -874,14 +955,31 @@ func runShutdown(it shutItem, al map[string]pdgram, cacheFile string, out *shutO
 		o.phase = fmt.Sprintf("cycle %d: traffic+signal", cycle)
 		set()
 		n := len(it.inflight)
+		// template datagrams the receive loop had READ (counted in UDPCount) before the signal was sent:
+		// datagrams are read in order, so these are the first <count> of this cycle
+		var before []string
+		base, _ := pipeStats(pr)
+		signal := func(delivered int) {
+			if it.waitRead {
+				want := base + uint64(delivered)
+				sched.WaitCond(func() bool { g, _ := pipeStatsQuiet(pr); return g >= want }, "datagrams read")
+			}
+			got, _ := pipeStats(pr)
+			for k := 0; k < delivered && k < int(got-base); k++ {
+				if tplOf[it.inflight[k]] != 0 {
+					before = append(before, it.inflight[k])
+				}
+			}
+			sendSignal()
+		}
 		for i, name := range it.inflight {
 			if i == n-it.after {
-				sendSignal()
+				signal(i)
 			}
 			conn.Deliver(al[name].ip, 50000, al[name].wire)
 		}
 		if it.after == 0 {
-			sendSignal()
+			signal(n)
 		}
 		t0 := sched.Now()
 		o.phase = fmt.Sprintf("cycle %d: waiting for exit", cycle)
@@ -907,10 +1005,41 @@ func runShutdown(it shutItem, al map[string]pdgram, cacheFile string, out *shutO
 			if !o.hasT1 && o.fileErr == "" {
 				o.fileErr = fmt.Sprintf("cycle %d: cache file does not hold the template acknowledged before the signal", cycle)
 			}
+			// templates received before the signal: the collector had a full second to decode them;
+			// unless runnable threads were held up for that long in total (timers fired early) they must be in the file
+			if sched.JumpedNs() < 1e9 && o.fileErr == "" {
+				for _, name := range before {
+					var ok bool
+					if it.proto == ppIPFIX {
+						_, ok = ipfix.VerifRetrieve(ipfix.GetCache(cacheFile), tplOf[name], append(net.IP{}, al[name].ip...))
+					} else {
+						_, ok = netflow9.VerifRetrieve(netflow9.GetCache(cacheFile), tplOf[name], append(net.IP{}, al[name].ip...))
+					}
+					if !ok && o.lostEarly == "" {
+						o.lostEarly = fmt.Sprintf("cycle %d: template %d of datagram %q had been received (counted) before the signal but is not in the cache file", cycle, tplOf[name], name)
+					}
+				}
+			}
 		}
 		o.phase = fmt.Sprintf("cycle %d: done", cycle)
 		set()
 	}
+}
+
+// c15LockItems run in the build whose template-cache lock operations are scheduling points too: the
+// dump at shutdown against a worker that has taken a template datagram off the queue but not stored it yet.
+func c15LockItems(tier string) []shutItem {
+	var out []shutItem
+	for _, p := range []int{ppIPFIX, ppV9} {
+		out = append(out, shutItem{"template read right before the signal", p, 1, 1000, []string{"dataB-short", "inband-tpl"}, 0, 2, false, true, true})
+		if tier == "thorough" {
+			out = append(out, shutItem{"template read right before the signal", p, 1, 1000, []string{"dataB-short", "inband-tpl"}, 0, 2, false, true, false})
+			out = append(out, shutItem{"template read right before the signal", p, 2, 1000, []string{"dataB-short", "inband-tpl"}, 0, 2, false, true, false})
+			out = append(out, shutItem{"template read right before the signal", p, 1, 1, []string{"inband-tpl", "dataB-short"}, 0, 2, false, true, false})
+			out = append(out, shutItem{"template burst around the signal", p, 1, 1000, []string{"inband-tpl", "inband-data", "template", "dataB-short"}, 2, 1, false, true, false})
+		}
+	}
+	return out
 }
 
 func c15Items(tier string) []shutItem {
@@ -920,38 +1049,39 @@ func c15Items(tier string) []shutItem {
 		if tier == "thorough" {
 			for _, w := range []int{1, 2} {
 				for _, cap := range []int{1000, 1} {
-					out = append(out, shutItem{"idle", p, w, cap, nil, 0, 3, false})
-					out = append(out, shutItem{"data before the signal", p, w, cap, []string{"dataB-short", "dataA-mid"}, 0, 2, false})
-					out = append(out, shutItem{"data around the signal", p, w, cap, []string{"dataB-short", "dataA-mid", "dataB-short"}, 2, 2, false})
+					out = append(out, shutItem{"idle", p, w, cap, nil, 0, 3, false, false, false})
+					out = append(out, shutItem{"data before the signal", p, w, cap, []string{"dataB-short", "dataA-mid"}, 0, 2, false, false, false})
+					out = append(out, shutItem{"data around the signal", p, w, cap, []string{"dataB-short", "dataA-mid", "dataB-short"}, 2, 2, false, false, false})
 					if flow {
-						out = append(out, shutItem{"template burst around the signal", p, w, cap, []string{"inband-tpl", "inband-data", "template", "dataB-short"}, 2, 2, false})
+						out = append(out, shutItem{"template burst around the signal", p, w, cap, []string{"inband-tpl", "inband-data", "template", "dataB-short"}, 2, 2, false, false, false})
 					}
 				}
 			}
 			continue
 		}
-		out = append(out, shutItem{"idle", p, 1, 1000, nil, 0, 2, false})
+		out = append(out, shutItem{"idle", p, 1, 1000, nil, 0, 2, false, false, false})
 		b := 1
 		if p == ppIPFIX || p == ppSFlow {
 			b = 2
 		}
-		out = append(out, shutItem{"data before the signal", p, 1, 1000, []string{"dataB-short", "dataA-mid"}, 0, b, false})
-		out = append(out, shutItem{"data around the signal", p, 1, 1, []string{"dataB-short", "dataA-mid", "dataB-short"}, 2, 1, false})
-		out = append(out, shutItem{"data around the signal", p, 2, 1000, []string{"dataB-short", "dataA-mid"}, 1, 1, false})
+		out = append(out, shutItem{"data before the signal", p, 1, 1000, []string{"dataB-short", "dataA-mid"}, 0, b, false, false, false})
+		out = append(out, shutItem{"data around the signal", p, 1, 1, []string{"dataB-short", "dataA-mid", "dataB-short"}, 2, 1, false, false, false})
+		out = append(out, shutItem{"data around the signal", p, 2, 1000, []string{"dataB-short", "dataA-mid"}, 1, 1, false, false, false})
 		if flow {
-			out = append(out, shutItem{"template burst around the signal", p, 2, 1000, []string{"inband-tpl", "inband-data", "template", "dataB-short"}, 2, 1, false})
-			out = append(out, shutItem{"template re-announced shorter before the second stop", p, 1, 1000, nil, 0, 1, true})
+			out = append(out, shutItem{"template burst around the signal", p, 2, 1000, []string{"inband-tpl", "inband-data", "template", "dataB-short"}, 2, 1, false, false, false})
+			out = append(out, shutItem{"template re-announced shorter before the second stop", p, 1, 1000, nil, 0, 1, true, false, false})
 		}
 	}
 	return out
 }
 
-func c15Space(tier string) mck.Space {
-	its := c15Items(tier)
-	const K = 4
+func c15Space(tier string) mck.Space      { return c15SpaceOf(c15Items(tier), 4) }
+func c15LocksSpace(tier string) mck.Space { return c15SpaceOf(c15LockItems(tier), 8) }
+
+func c15SpaceOf(its []shutItem, K int) mck.Space {
 	return mck.FuncSpace{N: uint64(len(its) * K), F: func(idx0 uint64, c *mck.Ctx) {
-		idx := idx0 / K
-		shard := int(idx0 % K)
+		idx := idx0 / uint64(K)
+		shard := int(idx0 % uint64(K))
 		it := its[idx]
 		al := alphabet(it.proto)
 		if it.proto == ppIPFIX || it.proto == ppV9 {
@@ -976,7 +1106,11 @@ func c15Space(tier string) mck.Space {
 			}
 			_, wantRestart = standalone(it.proto, d, pre, nil)
 		}
-		pit := pipeItem{name: fmt.Sprintf("%s workers=%d queue=%d after-signal=%d [unit %d/%d]", it.name, it.workers, it.udpCap, it.after, shard, K), run: pipeRun{proto: it.proto, workers: it.workers}, bound: it.bound}
+		cyc := 2
+		if it.once {
+			cyc = 1
+		}
+		pit := pipeItem{name: fmt.Sprintf("%s workers=%d queue=%d after-signal=%d cycles=%d [unit %d/%d]", it.name, it.workers, it.udpCap, it.after, cyc, shard, K), run: pipeRun{proto: it.proto, workers: it.workers}, bound: it.bound}
 		for _, n := range it.inflight {
 			pit.run.seq = append(pit.run.seq, al[n])
 		}
@@ -989,7 +1123,7 @@ func c15Space(tier string) mck.Space {
 				so = shutObs{}
 				smu.Unlock()
 				name := ppNames[it.proto]
-				if s.phase != "cycle 1: done" {
+				if s.phase != "cycle 1: done" && !(it.once && s.phase == "cycle 0: done") {
 					return name + ":shutdown:did-not-finish", "the harness stopped in phase: " + s.phase
 				}
 				if s.exitNs > 3e9 {
@@ -998,7 +1132,10 @@ func c15Space(tier string) mck.Space {
 				if s.fileErr != "" {
 					return name + ":shutdown:templates-lost", s.fileErr
 				}
-				if wantRestart != "" && (len(s.restartPub) != 1 || s.restartPub[0] != wantRestart) {
+				if s.lostEarly != "" {
+					return name + ":shutdown:template-received-before-signal-lost", s.lostEarly
+				}
+				if wantRestart != "" && !it.once && (len(s.restartPub) != 1 || s.restartPub[0] != wantRestart) {
 					return name + ":shutdown:restart-decode", fmt.Sprintf("after the restart data for the saved template was not decoded at once: published %v, expected %s", s.restartPub, wantRestart)
 				}
 				return "", ""
@@ -1028,10 +1165,12 @@ func c16Items(tier string) []pipeItem {
 }
 
 var pipeSpaces = map[string]func(string) mck.Space{
-	"pipe.c16": pipeSpace(c16Items, 4),
-	"pipe.c15": c15Space,
-	"pipe.c12": pipeSpace(c12Items, 2),
-	"pipe.c13": pipeSpace(c13Items, 1),
+	"pipe.c16":      pipeSpace(c16Items, 4),
+	"pipe.c15":      c15Space,
+	"pipe.c15locks": c15LocksSpace,
+	"pipe.c12":      pipeSpace(c12Items, 2),
+	"pipe.c08":      pipeSpace(c08Items, 4),
+	"pipe.c13":      pipeSpace(c13Items, 1),
 }
 
 func main() { mck.Main(pipeSpaces) }
